@@ -269,6 +269,74 @@ def make_c_rule(rule_id):
     return run
 
 
+def analyse_translated(unit, extra):
+    """Imagnetic kernel of a unit (a builtin model or the SLD-translation witness): every argument of the model call made
+    inside the spin-channel loop is evaluated from the parameter table *after* the loop has overwritten the SLD slots.  An
+    argument that goes through a local variable declared outside the channel loop whose value depends on an SLD-typed
+    table member carries the nominal SLD into every channel."""
+    out = []
+    def inst(ok, fn, construct, line, detail=""):
+        out.append(("R-C06-translated", "ok" if ok else "violation", KI, "%s:%s" % (unit.name.lstrip("_"), fn), construct, line, detail))
+    meta = unit.meta
+    sld = {p for p, t in meta.get("types", {}).items() if t == "sld"}
+    if not sld:
+        return out
+    k = Kernel(unit, "Imagnetic")
+    # the channel loop: the outermost `for` that contains a store into local_values.vector[...]
+    def stores(n):
+        return [x for x in cfront.walk(n) if x.get("kind") == "BinaryOperator" and x.get("opcode") == "=" and
+                norm(c_text(kids(x)[0])).startswith("local_values.vector[")]
+    loops = [n for n in cfront.walk(k.body) if n.get("kind") == "ForStmt" and stores(n)]
+    calls_all = k.model_calls(names=("Iq", "Fq", "Iqac", "Iqabc", "Iqxy"))
+    spin = [l for l in loops if any(c is x for c in calls_all for x in cfront.walk(l))]
+    if not spin:
+        raise AnalysisError("%s: no loop in the Imagnetic kernel both rewrites local_values.vector[] and calls the model" % unit.name)
+    spin = spin[-1]         # innermost such loop: the loop over cross sections
+    inside = {id(x) for x in cfront.walk(spin)}
+    # local variables of the kernel: name -> (initialiser text, declared inside the channel loop?)
+    decls = {}
+    for n in cfront.walk(k.body):
+        if n.get("kind") == "VarDecl" and kids(n):
+            decls[n["name"]] = (norm(c_text(kids(n)[-1])), id(n) in inside, n.get("_line", 0))
+    def sld_deps(text, seen=()):
+        """SLD table members an expression text depends on through variables declared outside the channel loop."""
+        deps = set()
+        for name in set(re.findall(r"(?<![\w.])([A-Za-z_]\w*)", text)):
+            if name in decls and not decls[name][1] and name not in seen:
+                init = decls[name][0]
+                direct = {m for m in re.findall(r"local_values\.table\.(\w+)", init) if m in sld}
+                if direct:
+                    deps.add((name, tuple(sorted(direct))))
+                deps |= sld_deps(init, seen + (name,))
+        return deps
+    calls = [c for c in calls_all if id(c) in inside]
+    for c in calls:
+        args = [norm(c_text(a)) for a in kids(c)[1:]]
+        stale = set()
+        for a in args:
+            stale |= sld_deps(a)
+        reads = sorted({m for a in args for m in re.findall(r"local_values\.table\.(\w+)", a) if m in sld})
+        inst(not stale, "Imagnetic", "%s(%s)" % (c_callee(c), ", ".join(args))[:150], c.get("_line", 0),
+             "SLD-typed table members read in the call itself: %s" % reads if not stale else
+             "argument goes through %s, computed before the channel loop from SLD member(s) %s: the per-channel effective SLD "
+             "never reaches the model" % (sorted(x[0] for x in stale), sorted({m for x in stale for m in x[1]})))
+    return out
+
+
+_T = None
+
+
+def rule_translated(r):
+    global _T
+    if _T is None:
+        _T = cfront.map_units("sa.rules.c06:analyse_translated", include_witness="sld")
+    if "_reparam_witness_sld" not in _T or not _T["_reparam_witness_sld"]:
+        raise AnalysisError("SLD-translation witness produced no instance")
+    for unit, rows in sorted(_T.items()):
+        for _, status, f, fn, construct, line, detail in rows:
+            getattr(r, status)(f, fn, construct, line, detail)
+
+
 def rule_python(r):
     mi = pf.lib("modelinfo")
     MI = "sasmodels/modelinfo.py"
@@ -333,6 +401,7 @@ RULES = [
     ("R-C06-sld", 250, "effective SLD per channel", make_c_rule("R-C06-sld")),
     ("R-C06-loop", 250, "channel loop in the Imagnetic kernel", make_c_rule("R-C06-loop")),
     ("R-C06-slots", 250, "value-vector slot arithmetic", make_c_rule("R-C06-slots")),
+    ("R-C06-translated", 40, "model call in the channel loop reads the SLDs after substitution (builtin units + SLD-translation witness)", rule_translated),
     ("R-C06-python", 14, "append order, polar->rectangular conversion, kernel selection", rule_python),
     ("R-C06-qdir", 40, "mag_sld receives the fetched q components (all magnetic units)", _x3.make_helper_rule("R-C06-qdir")),
 ]
